@@ -11,7 +11,9 @@ Vars == UNION {{[m |-> m, x |-> x, t |-> t, v |-> v] : x \in {"(default)", "lead
                  v \in Variants(m) \ {"plain"}} : m \in AllNames}
 \* the same command lines on THREE input files (views that compare the inputs with each other: rank, maprank; and the plain ones)
 Three == {[m |-> m, x |-> x, t |-> t, v |-> "three-files"] : m \in AllNames, x \in {"(default)", "leadtime", "location", "no"}, t \in {"rank", "maprank", "plot", "csv"}}
-Init == c \in (IF Part = "cross" THEN Cross ELSE Vars \cup Three) /\ phase = "combo"
+\* the dimensions whose slices are VALUE bins (-x obs, -x fcst, -x threshold) together with an explicit list of bin edges, on every table / plot type
+Cond == {[m |-> m, x |-> x, t |-> t, v |-> v] : m \in AllNames, x \in {"obs", "fcst", "threshold"}, t \in {"plot", "text", "csv"}, v \in {"r-given", "r-single", "b-within"}}
+Init == c \in (IF Part = "cross" THEN Cross ELSE Vars \cup Three \cup Cond) /\ phase = "combo"
 Evaluate == phase = "combo" /\ phase' = "emitted" /\ c' = c
             /\ PrintT(ToJson([m |-> c.m, x |-> c.x, t |-> c.t, v |-> c.v, argv |-> ArgvOf(c.m, c.x, c.t, c.v), predict |-> Predict(c.m, c.x, c.t, c.v)]))
 Next == Evaluate
